@@ -891,18 +891,22 @@ impl Sim {
 			}
 			Op::Lock { s } => {
 				match self.pick_slate(*s, |r| {
-					r.flow == Flow::Send && !r.late_lock && (!strict || (!r.locked && r.stage < Stage::Finalized && !r.is_cancelled()))
+					(r.flow == Flow::Send && !r.late_lock && (!strict || (!r.locked && r.stage < Stage::Finalized && !r.is_cancelled())))
+						// any order: the reserve step of an invoice payer may be delivered again at any later time (the
+						// payer's private context is never deleted, so the call reaches the reservation code)
+						|| (!strict && r.flow == Flow::Invoice && r.s2.is_some())
 				}) {
 					None => OpOutcome::noop("lock"),
 					Some(si) => {
-						let rep = self.slates[si].locked && !self.slates[si].cancelled_by.contains(&self.slates[si].initiator);
+						let payer = self.slates[si].payer();
+						let rep = self.slates[si].locked && !self.slates[si].cancelled_by.contains(&payer);
 						let r = self.lock(si);
 						OpOutcome {
 							effective: true,
 							kind: if rep { "lock-repeat".into() } else { "lock".into() },
 							result: Some(r),
 							slate: Some(si),
-							wallet: Some(self.slates[si].initiator),
+							wallet: Some(payer),
 						}
 					}
 				}
@@ -1112,7 +1116,7 @@ impl Sim {
 				}
 			}
 			Op::RefinalizeOtherReply { s } => {
-				match self.pick_slate(*s, |r| r.flow == Flow::Send && r.initiator != r.responder && r.stage == Stage::Finalized && !r.is_cancelled() && r.mined_at.is_none()) {
+				match self.pick_slate(*s, |r| r.initiator != r.responder && r.stage == Stage::Finalized && !r.is_cancelled() && r.mined_at.is_none()) {
 					None => OpOutcome::noop("refinalize-other-reply"),
 					Some(si) => {
 						let r = self.refinalize_other_reply(si);
@@ -1263,13 +1267,28 @@ impl Sim {
 	pub fn finalize_tampered(&mut self, si: usize) -> Result<(), String> {
 		let (w, acct) = (self.slates[si].initiator, self.slates[si].initiator_acct);
 		let mut s2 = wire(self.slates[si].s2.as_ref().ok_or("no S2")?)?;
-		let ri = s2.participant_data.iter().position(|p| p.part_sig.is_some()).ok_or("reply without partial signature")?;
-		let sig = s2.participant_data[ri].part_sig.unwrap();
-		let mut raw = [0u8; 64];
-		raw.copy_from_slice(sig.as_ref());
-		raw[40] ^= 0x10;
-		s2.participant_data[ri].part_sig = Some(grin_util::secp::Signature::from_raw_data(&raw).map_err(|e| format!("{:?}", e))?);
 		let late = self.slates[si].late_lock;
+		let proof_sig = s2.payment_proof.as_ref().and_then(|p| p.receiver_signature.clone());
+		match (late, proof_sig) {
+			(true, Some(sig)) => {
+				// a late-locked send checks the transaction before it reserves anything; the payment-proof signature is
+				// verified after the reservation: damage that one, so that the refusal comes as late as it can
+				let mut raw = sig.to_bytes();
+				raw[40] ^= 0x10;
+				let bad = ed25519_dalek::Signature::from_bytes(&raw).map_err(|e| format!("{:?}", e))?;
+				if let Some(p) = s2.payment_proof.as_mut() {
+					p.receiver_signature = Some(bad);
+				}
+			}
+			_ => {
+				let ri = s2.participant_data.iter().position(|p| p.part_sig.is_some()).ok_or("reply without partial signature")?;
+				let sig = s2.participant_data[ri].part_sig.unwrap();
+				let mut raw = [0u8; 64];
+				raw.copy_from_slice(sig.as_ref());
+				raw[40] ^= 0x10;
+				s2.participant_data[ri].part_sig = Some(grin_util::secp::Signature::from_raw_data(&raw).map_err(|e| format!("{:?}", e))?);
+			}
+		}
 		let before = self.output_commits(w);
 		let r = self.with_account(w, acct, |s| s.w(w).owner.finalize_tx(s.w(w).m(), &s2).map(|_| ()).map_err(|e| e.to_string()));
 		if late {
@@ -1290,6 +1309,9 @@ impl Sim {
 
 	/// See Op::RefinalizeOtherReply. Ok(()) = refused (expected); Err("...accepted") otherwise.
 	pub fn refinalize_other_reply(&mut self, si: usize) -> Result<(), String> {
+		if self.slates[si].flow == Flow::Invoice {
+			return self.refinalize_other_invoice_reply(si);
+		}
 		let (w, acct, to) = (self.slates[si].initiator, self.slates[si].initiator_acct, self.slates[si].responder);
 		let s1 = wire(&self.slates[si].s1)?;
 		let first_acct = self.slates[si].responder_acct.unwrap_or(0);
@@ -1307,6 +1329,32 @@ impl Sim {
 		match r {
 			Err(_) => Ok(()),
 			Ok(()) => Err("a finalized slate was finalized again with a different reply: accepted".into()),
+		}
+	}
+
+	/// Invoice variant of Op::RefinalizeOtherReply: a second, different I2 (the payer's other account processes the same
+	/// invoice; an uncooperative payer does not reserve anything for it) is given to the issuer, who has already
+	/// finalized the first: must be refused.
+	fn refinalize_other_invoice_reply(&mut self, si: usize) -> Result<(), String> {
+		let (issuer, issuer_acct, payer, amount) = (self.slates[si].initiator, self.slates[si].initiator_acct, self.slates[si].responder, self.slates[si].amount_requested);
+		let i1 = wire(&self.slates[si].s1)?;
+		let first_acct = self.slates[si].responder_acct.unwrap_or(0);
+		let other_acct = (first_acct + 1) % ACCOUNTS.len();
+		let mut args = self.init_args(payer, &SendArgs::default(), amount, None);
+		args.src_acct_name = None;
+		args.amount_includes_fee = None;
+		args.late_lock = Some(false);
+		let i2b = self.with_account(payer, other_acct, |s| s.w(payer).owner.process_invoice_tx(s.w(payer).m(), &i1, args).map_err(|e| e.to_string()));
+		let i2b = match i2b {
+			Ok(s) => s,
+			Err(e) => return Err(format!("no second reply available: {}", e)),
+		};
+		let i2b = wire(&i2b)?;
+		let r = self.with_account(issuer, issuer_acct, |s| s.w(issuer).foreign().finalize_tx(&i2b, false).map(|_| ()).map_err(|e| e.to_string()));
+		crate::rt::dbg(&format!("second reply to a finalized invoice -> {:?}", r));
+		match r {
+			Err(_) => Ok(()),
+			Ok(()) => Err("a finalized invoice was finalized again with a different reply: accepted".into()),
 		}
 	}
 
